@@ -241,6 +241,9 @@ def run_case(case):
         msg = truth.layer_err_ok(elayers)
         if msg:
             V('layer_failure_entries', msg)
+        # "recorded" includes the verdict: what is on record makes the run fail
+        if truth.bad and res.failed is not True:
+            V('recorded_but_verdict_passed', 'failures %s errors %s layer faults %s, Runner.failed=%r' % (dict(truth.fail), dict(truth.err), truth.layer_err, res.failed))
     nt = any(s != 'pass' for s in scripts) or bool(lf)
     return {'nontrivial': nt, 'violations': viol,
             'outcome': (res.failed, bool(res.escaped), len(res.children)),
